@@ -2,7 +2,8 @@
 import collections
 from lib import *
 
-THEOREMS = ["Lex.fuzz_size", "Lex.fuzz_decimal", "Lex.fuzz_hex_upper", "Lex.hex_roundtrip", "Lex.bin_roundtrip",
+THEOREMS = ["Lex.fuzz_output_no_lexical_error", "Lex.emit_safe2", "Lex.safe_noErr", "Lex.lex_errFree", "Lex.closedLex_string",
+            "Lex.closedLex_char", "Lex.wordLex_ident", "Lex.piece_decimal_suffixed", "Lex.piece_hex_upper_suffixed", "Lex.fuzz_size", "Lex.fuzz_decimal", "Lex.fuzz_hex_upper", "Lex.hex_roundtrip", "Lex.bin_roundtrip",
             "Lex.fuzz_decimal_suffixed", "Lex.fuzz_hex_suffixed", "Lex.fuzz_bin_suffixed", "Lex.fixed_spellings_lex"]
 
 # shapes of the lexemes the fuzzer can emit (one regex per branch of fill_to_capacity_with_tokens), used as a
@@ -16,6 +17,50 @@ SHAPES = [
     ("char", re.compile(r"^'(\\x[0-9A-F]{2}|\\[nrt\\'\"]|[ -~])'$")),
     ("string", re.compile(r'^"([^"\\\n]|\\x[0-9A-F]{2}|\\[nrt\\\'"]|\\u\{[0-9a-f]{1,6}\})*"$', re.S)),
 ]
+
+
+SUF = r"(?:i8|i16|i32|i64|i128|u8|u16|u32|u64|u128|usize)"
+PIECES = [
+    ("word:ident", re.compile(r"[A-Za-z_][A-Za-z0-9_]*(?![A-Za-z0-9_])")),
+    ("word:hex", re.compile(r"0x(?:0|[1-9a-f][0-9a-f]*|[1-9A-F][0-9A-F]*)%s?(?![A-Za-z0-9_])" % SUF)),
+    ("word:bin", re.compile(r"0b(?:0|1[01]*)%s?(?![A-Za-z0-9_])" % SUF)),
+    ("word:dec", re.compile(r"(?:0|[1-9][0-9]*)%s?(?![A-Za-z0-9_])" % SUF)),
+    ("string", re.compile(r'"(?:[ !#-\[\]-~]|\\[nrt\\\'"0]|\\x[0-9A-Fa-f]{2}|\\u\{[0-9a-fA-F]{1,8}\}|[^\x00-\x7f])*"')),
+    ("char", re.compile(r"'(?:[ -&(-\[\]-~]|\\[nrt\\'\"0]|\\x[0-9A-Fa-f]{2}|\\u\{[0-9a-fA-F]{1,2}\})'")),
+    ("sym", re.compile(r"[(){}\[\]<>|&^!+*%:;.,=\-/]")),
+]
+
+
+def in_emission_model(line):
+    """is the line in the language of `Lex.emit` with `PieceOK` pieces (Lean: Lex/Safe.lean, Props/C19.lean)?  Returns None, or
+    the column and reason of the first character that no piece family accounts for"""
+    i = 0
+    n = len(line)
+    while i < n:
+        ch = line[i]
+        if ch in " \t":
+            i += 1
+            continue
+        if line.startswith("//", i):
+            return None
+        for name, rx in PIECES:
+            m = rx.match(line, i)
+            if m:
+                lex = m.group(0)
+                if name.startswith("word:") and name != "word:ident":
+                    digits = re.sub(SUF + "$", "", lex)
+                    v = int(digits[2:], 16) if name == "word:hex" else int(digits[2:], 2) if name == "word:bin" else int(digits)
+                    if v >= 2 ** 128:
+                        return (i, "number of 129 bits or more: " + lex[:50])
+                for um in re.finditer(r"\\u\{([0-9a-fA-F]+)\}", lex) if name in ("string", "char") else ():
+                    v = int(um.group(1), 16)
+                    if not (v < 0xD800 or 0xE000 <= v < 0x110000) or (name == "char" and v >= 128):
+                        return (i, "escape outside the modelled items: " + um.group(0))
+                i = m.end()
+                break
+        else:
+            return (i, "no piece family starts with %r" % line[i:i + 12])
+    return None
 
 
 def shape_of(lexeme):
@@ -57,6 +102,21 @@ def main():
                 "what": "a real lexer reports a lexical error on fuzzer output",
                 "alpha_errors(code@offset)": d.get("alpha_errs"), "delta_errors": d.get("delta_errs"), "text": text,
                 "harness_request": "lexa\t" + esc(text), "model_request": "lex\t" + sexp_str(text)})
+    # membership in the emission model: every line of every real output must be in the language the composition theorem
+    # (Lex.fuzz_output_no_lexical_error) quantifies over; a line outside it means the model no longer covers the fuzzer
+    outside = 0
+    for t in texts:
+        for ln_no, line in enumerate(t.replace("\r\n", "\n").split("\n")):
+            why = in_emission_model(line)
+            dist["line:" + ("in-model" if why is None else "outside")] += 1
+            if why is not None:
+                outside += 1
+                if outside <= 3:
+                    rep.violation("emission-model:%s" % why[1][:60], {
+                        "what": "a line of real fuzzer output is outside the language of the Lean emission model (pieces x spacing "
+                                "rule), so the composition theorem does not speak about it; no lexical error was found on it",
+                        "theorem": "Lex.fuzz_output_no_lexical_error", "line": line[:400], "column": why[0], "reason": why[1]},
+                        no_input=True)
     # the model lexes the same texts: no error token, and every token is of a shape the piece theorems cover
     m = run_model(["lex\t" + sexp_str(t) for t in texts])
     certified = 0
@@ -89,7 +149,8 @@ def main():
         "distinct_nontrivial": len(set(texts)),
         "rule": "real outputs of fill_to_capacity_with_tokens(95, buf, 0) with capacity kb*1096 exactly as `penne fuzz tokens` "
                 "calls it, kb in 1..%d; each is checked for UTF-8 validity, size >= kb KiB, zero lexical errors in the real "
-                "alpha lexer, the real delta lexer and the Lean reference lexer, and every lexeme is matched against the piece "
+                "alpha lexer, the real delta lexer and the Lean reference lexer, every line is recognised as a member of the "
+                "emission model's language (pieces x spacing rule) and every lexeme is matched against the piece "
                 "shapes the theorems quantify over; distinct = distinct output texts" % (64 if thorough else 8),
         "traces_validated_against_impl": certified,
         "bytes_lexed": total_bytes,
